@@ -335,10 +335,8 @@ impl World {
         }
         let mut net_rates = HashMap::new();
         let mut parts = vec![];
-        if !self.surcharge.is_empty() {
-            let lookup: HashMap<EdgeId, Cost> = self.surcharge.iter().map(|(e, c)| (EdgeId(*e), Cost::new(*c))).collect();
-            parts.push(NetworkCostRate::EdgeLookup { lookup });
-        }
+        // one table per posting of an edge: an edge listed twice is priced by two tables of the combined rate
+        parts.extend(self.edge_tables());
         if !self.turn_surcharge.is_empty() {
             let lookup: HashMap<(EdgeId, EdgeId), Cost> =
                 self.turn_surcharge.iter().map(|((a, b), c)| ((EdgeId(*a), EdgeId(*b)), Cost::new(*c))).collect();
@@ -421,9 +419,11 @@ impl World {
             Some(engine) => Arc::new(TurnDelayAccessModelService { engine }),
         };
         let mut net_rates = HashMap::new();
-        if !self.surcharge.is_empty() {
-            let lookup: HashMap<EdgeId, Cost> = self.surcharge.iter().map(|(e, c)| (EdgeId(*e), Cost::new(*c))).collect();
-            net_rates.insert("distance".to_string(), NetworkCostRate::EdgeLookup { lookup });
+        let mut tables = self.edge_tables();
+        if tables.len() == 1 {
+            net_rates.insert("distance".to_string(), tables.remove(0));
+        } else if tables.len() > 1 {
+            net_rates.insert("distance".to_string(), NetworkCostRate::Combined(tables));
         }
         let configured = StateModel::new(vec![(
             "distance".to_string(),
@@ -474,6 +474,20 @@ impl World {
                 t.delays[c] * ru::time_s(&t.unit) / ru::time_s(&self.feat_time_unit)
             }
         }
+    }
+    /// the per-edge surcharges as lookup tables: the i-th posting of an edge goes into table i
+    pub fn edge_tables(&self) -> Vec<NetworkCostRate> {
+        let mut tables: Vec<HashMap<EdgeId, Cost>> = vec![];
+        for (e, c) in self.surcharge.iter() {
+            let layer = tables.iter().position(|t| !t.contains_key(&EdgeId(*e)));
+            match layer {
+                Some(i) => {
+                    tables[i].insert(EdgeId(*e), Cost::new(*c));
+                }
+                None => tables.push([(EdgeId(*e), Cost::new(*c))].into_iter().collect()),
+            }
+        }
+        tables.into_iter().map(|lookup| NetworkCostRate::EdgeLookup { lookup }).collect()
     }
     pub fn ref_surcharge(&self, e: usize) -> f64 {
         self.surcharge.iter().filter(|(x, _)| *x == e).map(|(_, c)| *c).sum::<f64>() * self.w_dist
